@@ -46,7 +46,7 @@ func snapshotDir(root string) map[string]string {
 var c20Sources = []string{
 	"package pkg\n\nimport (\n\t\"fmt\"\n\t\"os\"\n)\n\n// A prints.\nfunc A() {\n\tfmt.Println(os.Args) // trailing\n}\n",
 	"package pkg\n\nimport str \"strings\"\n\nvar B = str.Repeat(\"b\", 2)\n",
-	"package pkg\n\n// C has no imports.\nconst C = 3\n",
+	"package pkg\n\n// C has no imports.\nconst C = 3\n\nvar T = []float64{\n\t1, 2,\n\t3, -4,\n}\n\nvar U = f(C,\n\t&T)\n\nvar V = map[string]*int{\"a\": nil,\n\t\"b\": &C}\n",
 	"package pkg\n\nimport (\n\t\"bytes\"\n\t\"io\"\n)\n\nfunc D(w io.Writer) { w.Write(bytes.NewBufferString(\"d\").Bytes()) }\n",
 	// raw string literals with multi-byte text over several lines, code behind the closing back quote
 	"package pkg\n\nimport \"strings\"\n\n// J – größer als ASCII.\nvar J = strings.TrimSpace(`\n日本語日本語日本語日本語日本語日本語\nÄÖÜ\n`) // hinter dem Rohtext\n\nconst K = `ääääääääääääääää\na\nb`\n\nfunc größe() string { return J + K /* © */ }\n",
